@@ -72,7 +72,17 @@ def fam_healthy(seed, i, tier):
                        "w": {"submit": 6, "fire": 10, "hb": 6}, "healthy_steps": rng.choice([60, 120])}}
 
 
-FAMILIES = {"healthy": fam_healthy, "core": fam_core, "crash": fam_crash, "reads": fam_reads, "member": fam_member, "member5": fam_member5}
+def fam_snap(seed, i, tier):
+    """snapshots: automatic and scheduler-triggered, gated Snapshot/Apply/Restore, lagging followers, chunked transfer"""
+    rng = random.Random(sseed(seed, "snap", i))
+    nv = rng.choice([1, 2, 3, 3, 3, 5])
+    return {"name": "snap-%d-%d" % (seed, i), "family": "snap", "voters": IDS[:nv], "controlled": True, "auto": False,
+            "heal": True, "heal_et": 60, "snap_every": rng.choice([0, 3, 5, 8]), "snap_pad": rng.choice([0, 0, 100, 32768 - 60, 40000, 70000]),
+            "random": {"seed": sseed(seed, "snap.r", i), "steps": rng.choice([200, 350, 500]), "snaps": True, "crashes": rng.random() < 0.5,
+                       "reads": False, "w": {"submit": 14, "fire": 5, "hb": 12, "snapnow": 5, "gate": 3, "release": 5, "crash": 1, "armcrash": 2, "restart": 6, "adv": 3}}}
+
+
+FAMILIES = {"snap": fam_snap, "healthy": fam_healthy, "core": fam_core, "crash": fam_crash, "reads": fam_reads, "member": fam_member, "member5": fam_member5}
 
 # ---- API programs (C18): enumerated by TLC from Api.tla ------------------------------------
 
@@ -200,7 +210,7 @@ def corpus(names):
 def scen_stats(evs):
     st = {"leaders": set(), "crashes": 0, "applies": 0, "appliers": set(), "truncates": 0, "ok_writes": 0, "ok_reads": 0,
           "votes": 0, "cand_terms": {}, "events": len(evs), "restarts": 0, "nonleader_reads": 0, "ae_rejects": 0,
-          "spec_steps": 0, "spec_matched": 0, "spec_drift": 0, "api_calls": 0, "cfg_appends": 0, "healthy_fires": 0, "in_healthy": False}
+          "spec_steps": 0, "spec_matched": 0, "spec_drift": 0, "api_calls": 0, "cfg_appends": 0, "healthy_fires": 0, "in_healthy": False, "snaps": 0, "compacts": 0}
     for e in evs:
         ev = e["ev"]
         if ev == "status" and e["role"] == 0:
@@ -218,6 +228,10 @@ def scen_stats(evs):
             st["appliers"].add(e["node"])
         elif ev == "log_truncate":
             st["truncates"] += 1
+        elif ev == "snap_close":
+            st["snaps"] += 1
+        elif ev in ("log_compact", "log_discard"):
+            st["compacts"] += 1
         elif ev == "healthy":
             st["in_healthy"] = e["on"]
         elif ev == "fire" and st["in_healthy"]:
@@ -251,6 +265,8 @@ RULES = {
     "C08": ("votes were requested in >= 2 terms or a voter crashed", lambda s: len(s["cand_terms"]) >= 2 or s["crashes"] >= 1),
     "C14": ("a crash at a storage-operation boundary followed by a restart", lambda s: s["crashes"] >= 1 and s["restarts"] >= 1),
     "C09": ("a membership change was appended and a leader change happened", lambda s: s["cfg_appends"] >= 1 and len(s["leaders"]) >= 2),
+    "C10": ("a snapshot was taken or installed", lambda s: s["snaps"] >= 1),
+    "C11": ("a log compaction or a snapshot installation happened", lambda s: s["compacts"] >= 1),
     "C16": ("a healthy period was established and a minority node's timer fired in it", lambda s: s["healthy_fires"] >= 1),
     "C15": ("at heal time some node was down, behind the leader or in a stale term", lambda s: s["crashes"] >= 1 or s["truncates"] >= 1 or len(s["leaders"]) >= 2),
     "C18": ("an API program of at least two calls was executed", lambda s: s["api_calls"] >= 2),
@@ -267,11 +283,13 @@ PROPS = {
     "C06": dict(fams=[("core", 3), ("crash", 2)], corpus=["core", "crash"], mc="MC_core3", mc_deep="MC_core3_deep", gen=[("Gen_core3", ["a", "b", "c"], 40)]),
     "C07": dict(fams=[("core", 3), ("crash", 2)], corpus=["core", "crash"], mc="MC_core3", mc_deep="MC_core3_deep", gen=[("Gen_core3", ["a", "b", "c"], 40)]),
     "C08": dict(fams=[("core", 2), ("crash", 3)], corpus=["core", "crash"], mc="MC_crash3", mc_deep="MC_crash3_deep"),
-    "C14": dict(fams=[("crash", 5)], corpus=["crash"], mc="MC_crash3", mc_deep="MC_crash3_deep"),
+    "C14": dict(fams=[("crash", 4), ("snap", 2)], corpus=["crash", "snap"], mc="MC_crash3", mc_deep="MC_crash3_deep"),
     "C09": dict(fams=[("member", 3), ("member5", 3)], corpus=["member"], mc="MC_member", monitor_props=["C01", "C02", "C07", "C09", "C05"]),
+    "C10": dict(fams=[("snap", 6)], corpus=["snap"], mc=None),
+    "C11": dict(fams=[("snap", 6)], corpus=["snap"], mc=None),
     "C12": dict(storage=True),
     "C13": dict(storage=True),
-    "C15": dict(fams=[("core", 2), ("crash", 3)], corpus=["core", "crash"], mc="MC_core3"),
+    "C15": dict(fams=[("core", 2), ("crash", 2), ("snap", 2)], corpus=["core", "crash", "snap"], mc="MC_core3"),
     "C16": dict(fams=[("healthy", 6)], corpus=["healthy"], mc=None),
     "C18": dict(fams=[("core", 1)], corpus=["api"], api=True, mc=None),
 }
